@@ -705,6 +705,47 @@ func (s *sim) txFrom(ins [][2]int, ghost bool, nOut int, fee int64) *txDef {
 	return d
 }
 
+// minedOrphans: a chain P -> T -> T2 where T (and maybe T2) sit in the orphan pool and the whole chain is then
+// mined in one block with T's outputs spent inside the block: processOrphans cannot resolve T (its input
+// is already spent in the chain, its outputs too), so only netsync's RemoveOrphan(tx) takes it out.
+func (s *sim) minedOrphans() {
+	r := s.r
+	var a *gOut
+	free := s.unspentOuts(false)
+	for i := len(free) - 1; i >= 0; i-- {
+		if _, ok := s.utxo[[2]int{free[i].txid, free[i].idx}]; ok {
+			a = &free[i]
+			break
+		}
+	}
+	if a == nil {
+		return
+	}
+	P := s.txFrom([][2]int{{a.txid, a.idx}}, false, 1+r.Intn(2), 5000)
+	if P == nil {
+		return
+	}
+	T := s.txFrom([][2]int{{P.id, 0}}, false, 1, 5000)
+	if T == nil {
+		return
+	}
+	T2 := s.txFrom([][2]int{{T.id, 0}}, false, 1+r.Intn(2), 5000)
+	if T2 == nil {
+		return
+	}
+	s.submit(T)
+	if r.Bool() {
+		s.submit(T2)
+	}
+	view := map[[2]int]gUtxo{}
+	for k, v := range s.utxo {
+		view[k] = v
+	}
+	if s.eligible(P, view) {
+		s.connect([]int{P.id, T.id, T2.id})
+	}
+}
+
 // orphanDoubleSpends: orphans that double-spend an output which is NOT what they are waiting for; when
 // one of them is accepted through processOrphans the others (and their orphan redeemers) must go.
 func (s *sim) orphanDoubleSpends() {
@@ -983,6 +1024,19 @@ func (P) Generate(g0 *core.Gen) {
 			s.ops = append(s.ops, "T")
 			g.Case("rbf-limit", true, s.line())
 		}
+	}
+	for i := 0; i < g.N(30, 300); i++ {
+		r := g.R.Fork()
+		pol := randomPolicy(r)
+		pol.maxOrphans = 100
+		pol.maxOrphanSize = 100000
+		s := newSim(r, pol, 1)
+		s.baseChain(4 + r.Intn(3))
+		for k := 0; k < 1+r.Intn(2); k++ {
+			s.minedOrphans()
+		}
+		s.ops = append(s.ops, "T")
+		g.Case("mined-orphans", len(s.defs) >= 3, s.line())
 	}
 	for i := 0; i < g.N(120, 800); i++ {
 		r := g.R.Fork()
